@@ -243,7 +243,11 @@ func (o *EncodeOpts) Encode(m protoreflect.Message) []byte {
 				// member) with another value of the same length; the last wins
 				var d []byte
 				d = protowire.AppendTag(d, fd.Number(), wireType(fd.Kind()))
-				d = o.appendScalar(d, fd, variantOf(fd, v))
+				first := variantOf(fd, v)
+				if o.T.Chance("redundant-first-default", 1, 2) {
+					first = fd.Default() // e.g. a zero-length bytes record before the real one
+				}
+				d = o.appendScalar(d, fd, first)
 				recs = append(recs, d)
 			}
 			r = protowire.AppendTag(r, fd.Number(), wireType(fd.Kind()))
